@@ -163,6 +163,25 @@ Fixpoint stmts_while (n : string) (sc : option string) (evs : list sevent) (os :
   end.
 
 (* ====================== hypotheses on an event list, evaluated along the run ====================== *)
+Definition ev_hyp2 (s : sess) (ev : sevent) : bool :=
+  match ev with
+  | SvStmt st =>
+      if is_session_stmt st then true else
+      match cur s with
+      | Some c => match get_db c (dbs s) with Some y => stmt_hyp2 (mem y) st | None => true end
+      | None => true
+      end
+  | _ => true
+  end.
+
+Fixpoint sess_hyps2 (s : sess) (evs : list sevent) : bool :=
+  match evs with
+  | [] => true
+  | ev :: r => ev_hyp2 s ev && match fst (sess_step s ev) with Ok s1 => sess_hyps2 s1 r | _ => true end
+  end.
+
+(* the hypotheses with (H1) "a failing statement fails before its first page change" as a fourth
+   clause (SessionStore.stmt_hyp), as they were stated before (H1) was derived; they imply the ones above *)
 Definition ev_hyp (s : sess) (ev : sevent) : bool :=
   match ev with
   | SvStmt st =>
@@ -179,6 +198,20 @@ Fixpoint sess_hyps (s : sess) (evs : list sevent) : bool :=
   | [] => true
   | ev :: r => ev_hyp s ev && match fst (sess_step s ev) with Ok s1 => sess_hyps s1 r | _ => true end
   end.
+
+Lemma ev_hyp_hyp2 s ev : ev_hyp s ev = true -> ev_hyp2 s ev = true.
+Proof.
+  destruct ev as [st| |]; cbn [ev_hyp ev_hyp2]; auto.
+  destruct (is_session_stmt st); auto. destruct (cur s) as [c|]; auto.
+  destruct (get_db c (dbs s)) as [y|]; auto. apply stmt_hyp_hyp2.
+Qed.
+
+Lemma sess_hyps_hyps2 evs : forall s, sess_hyps s evs = true -> sess_hyps2 s evs = true.
+Proof.
+  induction evs as [|ev r IH]; intros s H; [reflexivity|]. cbn [sess_hyps sess_hyps2] in *.
+  apply andb_true_iff in H as [A B]. apply andb_true_iff. split; [apply ev_hyp_hyp2; exact A|].
+  destruct (fst (sess_step s ev)) as [s1|e|]; auto.
+Qed.
 
 (* ====================== 1. errors of CREATE DATABASE / USE change nothing ====================== *)
 Lemma create_database_err s name s' e : sess_stmt s (SCreateDatabase name) = (s', SOErr e) -> s' = s.
@@ -339,17 +372,17 @@ Qed.
 
 (* ====================== one event preserves the invariant and cannot fail ====================== *)
 Lemma plain_stmt_inv s sp st :
-  SessInv s sp -> is_session_stmt st = false -> ev_hyp s (SvStmt st) = true ->
+  SessInv s sp -> is_session_stmt st = false -> ev_hyp2 s (SvStmt st) = true ->
   exists s1, fst (sess_step s (SvStmt st)) = Ok s1 /\
              SessInv s1 (fst (spec_ev sp (cur s) (SvStmt st) (snd (sess_step s (SvStmt st))))) /\
              cur s1 = snd (spec_ev sp (cur s) (SvStmt st) (snd (sess_step s (SvStmt st)))).
 Proof.
-  intros HS Hplain Hh. unfold ev_hyp in Hh. rewrite Hplain in Hh.
+  intros HS Hplain Hh. unfold ev_hyp2 in Hh. rewrite Hplain in Hh.
   rewrite sess_step_stmt, (spec_ev_plain _ _ _ _ Hplain), (sess_stmt_plain _ _ Hplain). cbn [fst snd].
   destruct (cur s) as [c|] eqn:Ec; [|exists s; cbn [fst snd]; auto].
   destruct (sv_get_some s sp c HS (sv_cur _ _ HS c Ec)) as [y Ey]. rewrite Ey in *.
   destruct (sv_dbs _ _ HS _ _ Ey) as (d & Ed & HD & _).
-  destruct (DbInv_exec y d st HD Hh) as [Hnp HD1].
+  destruct (DbInv_exec2 y d st HD Hh) as [Hnp HD1].
   destruct (exec y st) as [y1 o]. cbn [fst snd] in *.
   destruct o as [cnt|e|]; [| |congruence]; cbn [spec_after sout_of] in *; rewrite ?Ed;
     (eexists; split; [reflexivity|]; split; [|reflexivity]);
@@ -373,7 +406,7 @@ Proof.
 Qed.
 
 Lemma sess_step_inv s sp ev :
-  SessInv s sp -> ev_hyp s ev = true ->
+  SessInv s sp -> ev_hyp2 s ev = true ->
   exists s1, fst (sess_step s ev) = Ok s1 /\
              SessInv s1 (fst (spec_ev sp (cur s) ev (snd (sess_step s ev)))) /\
              cur s1 = snd (spec_ev sp (cur s) ev (snd (sess_step s ev))).
@@ -500,13 +533,13 @@ Qed.
 
 (* ====================== runs ====================== *)
 Lemma sess_run_inv evs : forall s sp sf os,
-  SessInv s sp -> sess_hyps s evs = true -> sess_run s evs = (sf, os) ->
+  SessInv s sp -> sess_hyps2 s evs = true -> sess_run s evs = (sf, os) ->
   exists s', sf = Ok s' /\ SessInv s' (fst (sess_spec_run sp (cur s) evs os)) /\
              cur s' = snd (sess_spec_run sp (cur s) evs os).
 Proof.
   induction evs as [|ev r IH]; intros s sp sf os HS Hh Hr.
   - cbn in Hr. inversion Hr; subst. exists s. cbn. auto.
-  - cbn [sess_hyps] in Hh. apply andb_true_iff in Hh as [Hh1 Hh2].
+  - cbn [sess_hyps2] in Hh. apply andb_true_iff in Hh as [Hh1 Hh2].
     destruct (sess_step_inv s sp ev HS Hh1) as (s1 & E1 & HS1 & Hc1).
     cbn [sess_run] in Hr. destruct (sess_step s ev) as [r1 o]. cbn [fst snd] in *. subst r1.
     destruct (sess_run s1 r) as [fin os'] eqn:Er. inversion Hr; subst fin os. clear Hr.
@@ -514,21 +547,37 @@ Proof.
     eapply IH; eauto.
 Qed.
 
-Definition reachable (s : sess) : Prop :=
-  exists evs os, sess_hyps init_sess evs = true /\ sess_run init_sess evs = (Ok s, os).
+Definition reachable2 (s : sess) : Prop :=
+  exists evs os, sess_hyps2 init_sess evs = true /\ sess_run init_sess evs = (Ok s, os).
 
-Lemma reachable_inv s : reachable s -> exists sp, SessInv s sp.
+Lemma reachable2_inv s : reachable2 s -> exists sp, SessInv s sp.
 Proof.
   intros (evs & os & Hh & Hr). destruct (sess_run_inv evs init_sess [] _ _ SessInv_init Hh Hr) as (s' & E & HS & _).
   inversion E; subst s'. eauto.
 Qed.
 
+Definition reachable (s : sess) : Prop :=
+  exists evs os, sess_hyps init_sess evs = true /\ sess_run init_sess evs = (Ok s, os).
+
+Lemma reachable_reachable2 s : reachable s -> reachable2 s.
+Proof. intros (evs & os & Hh & Hr). exists evs, os. split; [apply sess_hyps_hyps2; exact Hh | exact Hr]. Qed.
+
+Lemma reachable_inv s : reachable s -> exists sp, SessInv s sp.
+Proof.
+  intros (evs & os & Hh & Hr). apply sess_hyps_hyps2 in Hh. destruct (sess_run_inv evs init_sess [] _ _ SessInv_init Hh Hr) as (s' & E & HS & _).
+  inversion E; subst s'. eauto.
+Qed.
+
 (* under the hypotheses no event fails or panics (restarts included) *)
-Lemma sess_run_total evs sf os :
-  sess_hyps init_sess evs = true -> sess_run init_sess evs = (sf, os) -> exists s, sf = Ok s.
+Lemma sess_run_total2 evs sf os :
+  sess_hyps2 init_sess evs = true -> sess_run init_sess evs = (sf, os) -> exists s, sf = Ok s.
 Proof.
   intros Hh Hr. destruct (sess_run_inv evs init_sess [] _ _ SessInv_init Hh Hr) as (s' & E & _). eauto.
 Qed.
+
+Lemma sess_run_total evs sf os :
+  sess_hyps init_sess evs = true -> sess_run init_sess evs = (sf, os) -> exists s, sf = Ok s.
+Proof. intros Hh. apply sess_run_total2. apply sess_hyps_hyps2. exact Hh. Qed.
 
 (* ---------- the specification database of n = the statements acknowledged while n was selected ---------- *)
 Lemma tspec_run_app a : forall d b, TableSpec.spec_run d (a ++ b) = TableSpec.spec_run (TableSpec.spec_run d a) b.
@@ -584,7 +633,7 @@ Proof.
 Qed.
 
 Lemma sess_run_stmts evs : forall s sp sf os n,
-  SessInv s sp -> sess_hyps s evs = true -> sess_run s evs = (sf, os) ->
+  SessInv s sp -> sess_hyps2 s evs = true -> sess_run s evs = (sf, os) ->
   match sp_get n sp with
   | Some d0 => sp_get n (fst (sess_spec_run sp (cur s) evs os)) =
                Some (TableSpec.spec_run d0 (stmts_while n (cur s) evs os))
@@ -595,7 +644,7 @@ Proof.
   induction evs as [|ev r IH]; intros s sp sf os n HS Hh Hr.
   - cbn in Hr. inversion Hr; subst. cbn [sess_spec_run stmts_while fst TableSpec.spec_run].
     destruct (sp_get n sp) as [d0|] eqn:Ed; [reflexivity | intros d H; rewrite H in Ed; discriminate].
-  - cbn [sess_hyps] in Hh. apply andb_true_iff in Hh as [Hh1 Hh2].
+  - cbn [sess_hyps2] in Hh. apply andb_true_iff in Hh as [Hh1 Hh2].
     destruct (sess_step_inv s sp ev HS Hh1) as (s1 & E1 & HS1 & Hc1).
     cbn [sess_run] in Hr. destruct (sess_step s ev) as [r1 o]. cbn [fst snd] in *. subst r1.
     destruct (sess_run s1 r) as [fin os'] eqn:Er. inversion Hr; subst fin os. clear Hr.
@@ -628,8 +677,8 @@ Proof.
   - rewrite (Hm eq_refl). split; [exact HR|]. intros _. split; [exact HR | reflexivity].
 Qed.
 
-Theorem isolation evs s os :
-  sess_hyps init_sess evs = true -> sess_run init_sess evs = (Ok s, os) ->
+Theorem isolation2 evs s os :
+  sess_hyps2 init_sess evs = true -> sess_run init_sess evs = (Ok s, os) ->
   snd (sess_spec_run [] None evs os) = cur s /\
   map fst (dbs s) = map fst (fst (sess_spec_run [] None evs os)) /\
   forall n d, sp_get n (fst (sess_spec_run [] None evs os)) = Some d ->
@@ -644,6 +693,16 @@ Proof.
   destruct (SessInv_rep s _ n d HS Hd) as (y & Ey & HR & _).
   exists y. split; [exact Ey|]. split; [exact HR|]. intros t Ht. apply Rep_table_agrees; assumption.
 Qed.
+
+Theorem isolation evs s os :
+  sess_hyps init_sess evs = true -> sess_run init_sess evs = (Ok s, os) ->
+  snd (sess_spec_run [] None evs os) = cur s /\
+  map fst (dbs s) = map fst (fst (sess_spec_run [] None evs os)) /\
+  forall n d, sp_get n (fst (sess_spec_run [] None evs os)) = Some d ->
+    d = TableSpec.spec_run [] (stmts_while n None evs os) /\
+    exists y, get_db n (dbs s) = Some y /\ Rep (logical (cur s) n y) d /\
+              forall t, is_sys t = false -> table_agrees (logical (cur s) n y) d t.
+Proof. intros Hh. apply isolation2. apply sess_hyps_hyps2. exact Hh. Qed.
 
 (* ====================== 2. SHOW DATABASES ====================== *)
 Lemma recover_all_keys : forall l l', recover_all l = Ok l' -> map fst l' = map fst l.
